@@ -21,7 +21,7 @@ _ops("C01", "New Add AddString IgnoreIdentical Append Concat Rename RenameRegexp
             "RemoveGapSeqs RemoveCharacterSeqs RemoveGapSites RemoveCharacterSites RemoveMajorityCharacterSites")
 _ops("C04", "SubAlign SelectSites InverseCoordinates InversePositions TrimSequences RefCoordinates RefSites Concat "
             "Append Split Transpose DiffWithFirst ReplaceMatchChars")
-_ops("C05", "Translate")
+_ops("C05", "Translate TranslateByReference CodonAlign")
 _ops("C06", "ReverseComplement ReverseComplementSequences ToUpper ToLower Unalign")
 _ops("C12", "RemoveGapSites RemoveCharacterSites RemoveMajorityCharacterSites RemoveGapSeqs RemoveCharacterSeqs")
 _ops("C13", "Deduplicate Compress")
